@@ -41,3 +41,6 @@ pub fn corpus() -> Vec<(String, String)> {
     collect_gleam(&verif_root().join("corpus"), &mut out);
     out
 }
+pub mod prog;
+pub mod cstread;
+pub mod gen;
